@@ -50,13 +50,13 @@ pub fn run_line(line: &str) -> Vec<String> {
         "sc" | "pe" | "peh" | "drg" => streams::run(f[0], args),
         "mac" | "dig" => macs::run(f[0], args),
         "aead_enc" | "aead_dec" | "aead_inc" | "aead_twice" | "aead_shape" => aead::run(f[0], args),
-        "hkdf_extract" | "hkdf_expand" | "pbkdf2" | "scrypt" | "scrypt_params" | "argon2" | "argon2b" | "argon2_params" => {
+        "hkdf_extract" | "hkdf_expand" | "pbkdf2" | "scrypt" | "scrypt_big" | "pbkdf2_big" | "scrypt_params" | "argon2" | "argon2b" | "argon2_accept" | "argon2_params" => {
             kdfs::run(f[0], args)
         }
         "bulk" | "x25519" | "x25519_base" | "x_dh" | "x_dhc" | "x_base" | "x25519_iter" | "x_try" | "ed_keypair" | "ed_sign" | "ed_sign_ext"
-        | "ed_ext_pub" | "ed_exchange" | "ed_verify" | "fe" | "consts" | "sc_reduce" | "sc_canon" | "sc_rt" | "ge_base" | "ge_dsm"
-        | "ge_chain" | "ge_decode" | "ge_table" | "ge_select" => curve::run(f[0], args),
-        "ct_u8_table" | "ct_u64" | "ct_arr" | "ct_slice" | "ct_u64arr" | "ct_u64slice" | "choice" | "ctopt" | "swap64"
+        | "ed_ext_pub" | "ed_exchange" | "ed_verify" | "fe" | "consts" | "sc_reduce" | "sc_muladd" | "sc_canon" | "sc_rt" | "ge_base" | "ge_dsm"
+        | "ge_chain" | "ge_prog" | "ge_decode" | "ge_table" | "ge_select" => curve::run(f[0], args),
+        "ct_u8_table" | "ct_u64" | "ct_arr" | "ct_arr_at" | "tag_eq_at" | "ct_slice" | "ct_u64arr" | "ct_u64slice" | "choice" | "ctopt" | "swap64"
         | "swap32" | "set64" | "set32" | "macres_eq" | "tag_eq" => ct::run(f[0], args),
         _ => vec![format!("UNKNOWN-OP:{}", f[0])],
     }
